@@ -8,15 +8,21 @@ REGISTRATION = {
     "category": "proof",
     "text": "Kernel-checked for every reachable state of the good variant: every live runner is THE loaded runner of its model "
             "(hence at most one per model) and any duplicate-free set of live runners is no larger than the limit in force; "
-            "decision theorems shared with the code's logic: a compatible healthy loaded runner is reused without starting one, "
-            "incompatible options / failed ping expire it and the new runner gets the request's options, the eviction victim is "
-            "idle whenever an idle runner exists, a new runner is started next to loaded ones only on a predicted fit, otherwise "
-            "evict (or wait for loads in progress). Witness for the pinned variant: two live runners of one model (F12a).",
+            "the limit is the CONFIGURED one (maxRunners never changes once positive: with OLLAMA_MAX_LOADED_MODELS = mr > 0 the number "
+            "of live runners is <= mr in every reachable state; unset: fixed for good by the first placement to #GPUs or 3x#GPUs); "
+            "the same for the bounded model (channel capacities, lock order). Decision theorems about the decision functions the "
+            "model shares with the code (options are an abstract value compared by equality - what counts as equal is decided by "
+            "the real needsReload and checked by trace conformance and the c11-no-reuse / c11-wrong-options monitors; the memory-fit "
+            "answer is an oracle `Fit` whose producers are checked by C16's L1 ties run inside this check): a compatible healthy "
+            "loaded runner is reused without starting one, incompatible options / failed ping expire it and the new runner gets the "
+            "request's options, the eviction victim is idle whenever an idle runner exists, a new runner is started next to loaded "
+            "ones only on a predicted fit, otherwise evict (or wait for loads in progress); instances on reachable states. End to end (OptsInv): a step that hands runner r to "
+            "request q hands out a runner started with q's model and options. Witness for the pinned variant: two live runners of one model (F12a).",
     "design_ref": "DESIGN.md §5 C01/C02/C11",
-    "note": COMMON_NOTE + "Outside the model: preemption inside a locked region, lock-order inversion, channel capacities of "
-            "finishedReqCh/expiredCh/unloadedCh, real timers, unloadAllRunners at shutdown, the cuda VRAM-recovery poller.",
+    "note": COMMON_NOTE + "Outside the model: preemption inside a locked region, real timers, unloadAllRunners at shutdown, the cuda "
+            "VRAM-recovery poller; options are an abstract value compared by equality; the cpu path loads when `loaded` was emptied meanwhile (Go re-reads the count).",
 }
-MODULES = ["OllamaVerif.Properties.C11", "OllamaVerif.Tie.C01"]
+MODULES = ["OllamaVerif.Properties.C11", "OllamaVerif.Properties.C02Chan", "OllamaVerif.Properties.C11Limit", "OllamaVerif.Properties.C11Opts", "OllamaVerif.Tie.C01"]
 THEOREMS = [
     "OllamaVerif.C11.live_runner_is_loaded",
     "OllamaVerif.C11.one_runner_per_model",
@@ -35,6 +41,23 @@ THEOREMS = [
     "OllamaVerif.Tie.C01.expired_region_is_atomic",
     "OllamaVerif.Tie.C01.tree_one_runner_per_model",
     "OllamaVerif.Tie.C01.tree_live_count_le_max",
+    "OllamaVerif.Sched.reach_optsInv",
+    "OllamaVerif.C11.granted_runner_has_request_options",
+    "OllamaVerif.C11.maxRunners_stable",
+    "OllamaVerif.C11.configured_limit",
+    "OllamaVerif.C11.live_count_le_configured",
+    "OllamaVerif.C11.auto_limit_shape",
+    "OllamaVerif.C11.reuse_instance",
+    "OllamaVerif.C11.incompatible_instance",
+    "OllamaVerif.Tie.C01.evict_region_is_atomic",
+    "OllamaVerif.C02Chan.live_count",
+    "OllamaVerif.C02Chan.bounded_live_count",
+    "OllamaVerif.C02Chan.bounded_one_runner_per_model",
+    "OllamaVerif.C02Chan.bounded_live_count_le_max",
+    "OllamaVerif.C02Chan.reachB_reach",
+    "OllamaVerif.Tie.C01.tree_cfg_repo",
+    "OllamaVerif.Tie.C01.chan_caps_are_max_queue",
+    "OllamaVerif.Tie.C01.send_sites_match",
 ]
 
 
